@@ -1,8 +1,11 @@
 import Tibc.Props.C01
 import Tibc.Expect.Packet
+import Tibc.Expect.Keys
 #print axioms Tibc.C01.recv_writes_only_after_verification
 #print axioms Tibc.C01.recv_accepted_committed
 #print axioms Tibc.C01.recv_rejected_unchanged
 #print axioms Tibc.C01.step_originInv
 #print axioms Tibc.C01.run_originInv
 #print axioms Tibc.C01.recv_accepted_was_sent
+#print axioms Tibc.C01.commitment_key_injective
+#print axioms Tibc.C01.commitment_key_family_disjoint
